@@ -103,7 +103,7 @@ impl Sink {
                 self.raw.push(io.clone());
             }
             match io {
-                Io::Write { off, data, flen_after } => {
+                Io::Write { off, data, flen_after, short } => {
                     let ps = self.pagesize.max(1);
                     let aligned = off % ps == 0;
                     // header pages are written one page at a time, except by init_file, which
@@ -133,7 +133,7 @@ impl Sink {
                         }
                         let mut ev = json!({"ev":"write","wi":wi,"page":page,"aligned":aligned,"len":data.len(),
                                             "n": (data.len() as u64 + ps - 1) / ps, "flen": flen_after / ps,
-                                            "flenb": flen_after});
+                                            "flenb": flen_after, "short": short});
                         if page < 2 && aligned {
                             ev["kind"] = json!("meta");
                             match parse::decode_meta(data) {
@@ -146,6 +146,8 @@ impl Sink {
                                 if let Some(p) = &self.prof {
                                     ev["pg"] = parse::decode_page(data, p);
                                 }
+                            } else {
+                                ev["pg"] = parse::decode_page_header(data);
                             }
                         }
                         self.put(&ev);
